@@ -23,27 +23,36 @@ CandsAt(D, O, s, T, q) == Cands(D, s, q, O.mgl, T.bt, T.gt)
    connection, or INF if no chain exists. *)
 Row(tab, nr, b) == {<<r, tab[<<b, r>>]>> : r \in {r \in 0..(nr - 1) : tab[<<b, r>>] # INF}}
 
-RECURSIVE OptScan(_, _, _, _, _, _)
-OptScan(D, O, s, T, sw, tab) ==
+RECURSIVE OptScan(_, _, _, _, _, _, _)
+OptScan(D, O, s, T, sw, tab, stuck) ==
    LET N == Len(s)  sn == sw IN
-   IF sw >= N THEN [at |-> N, tab |-> tab]
+   IF sw >= N THEN [at |-> N, tab |-> tab, stuck |-> stuck]
    ELSE LET base == TLCEval(Row(tab, D.nr, sn)) IN
-        IF base = {} THEN OptScan(D, O, s, T, sw + 1, tab)
+        IF base = {} THEN OptScan(D, O, s, T, sw + 1, tab, stuck)
         ELSE LET q == NextStart(D, O, s, T, sn) IN
-             IF q = N THEN [at |-> sn, tab |-> tab]
+             IF q = N THEN [at |-> sn, tab |-> tab, stuck |-> stuck]
              ELSE LET cs == TLCEval(CandsAt(D, O, s, T, q))
                       into(w) == SetMin({x[2] + Conn(D, x[1], w.l) : x \in base}) + w.c
                       newtab == [br \in (0..N) \X (0..(D.nr - 1)) |->
                                    LET ws == {w \in cs : w.e = br[1] /\ w.r = br[2]} IN
                                    IF ws = {} THEN tab[br] ELSE Min2(tab[br], SetMin({into(w) : w \in ws}))]
-                  IN OptScan(D, O, s, T, q + 1, TLCEval(newtab))
+                  IN OptScan(D, O, s, T, q + 1, TLCEval(newtab), stuck \/ cs = {})
 
-OptCost(D, O, s, T) ==
+OptRun(D, O, s, T) ==
    LET N == Len(s)
        t0 == TLCEval([br \in (0..N) \X (0..(D.nr - 1)) |-> IF br = <<0, 0>> THEN 0 ELSE INF])
-       fin == OptScan(D, O, s, T, 0, t0)
+   IN OptScan(D, O, s, T, 0, t0, FALSE)
+
+OptCost(D, O, s, T) ==
+   LET fin == OptRun(D, O, s, T)
        last == Row(fin.tab, D.nr, fin.at)
    IN IF last = {} THEN INF ELSE SetMin({x[2] + Conn(D, x[1], 0) : x \in last})
+
+(* named deviation Stuck (F12): the scan reaches a start position without any candidate
+   (its primary category has no unknown entry and no lexicon entry matches), or ends at a
+   boundary nothing reaches; the pinned code panics there *)
+ScanStuck(D, O, s, T) ==
+   LET fin == OptRun(D, O, s, T) IN fin.stuck \/ Row(fin.tab, D.nr, fin.at) = {}
 
 (* ------------------------------------------------------------------
    A reported token list, toks : Seq([b, e, lt, id, l, r, c, tot]).
